@@ -73,7 +73,9 @@ def build_errors(mir, cube):
           Query('every-listed-error-belongs-to-something-visited', Or(z3.And(e['some'], z3.Not(Or(matches(e, c, d) for c, d in fails))) for e in es), ops=[er], world=w, known=known),
           Query('every-failure-of-what-was-visited-is-listed', Or(z3.And(c, z3.Not(Or(z3.And(e['some'], matches(e, c, d)) for e in es))) for c, d in fails), ops=[er], world=w, known=known),
           Query('no-resolution-error-listed-twice', Or(z3.And(es[a]['some'], es[b]['some'], es[a]['cat'] != 0, es[a]['cat'] == es[b]['cat'], es[a]['rid'] == es[b]['rid']) for a in range(len(es)) for b in range(a + 1, len(es))), ops=[er], world=w, known=known),
-          Query('witness-three-errors', z3.And(es[2]['some'], Or(e['cat'] == 0 for e in es[:3]), Or(e['cat'] != 0 for e in es[:3])), expect='sat', kind='witness', ops=[er], world=w)]
+          # a code-only walk over two specifiers with one dependency each cannot list more than two errors (one failing module, one failing code edge)
+          (Query('witness-three-errors', z3.And(es[2]['some'], Or(e['cat'] == 0 for e in es[:3]), Or(e['cat'] != 0 for e in es[:3])), expect='sat', kind='witness', ops=[er], world=w) if cube['kind'] != 1 else
+           Query('witness-two-errors', z3.And(es[1]['some'], Or(e['cat'] == 0 for e in es[:2]), Or(e['cat'] != 0 for e in es[:2])), expect='sat', kind='witness', ops=[er], world=w))]
     for fname in sorted({f for f, _ in eng.exceeded}):
         qs.insert(0, Query('unwinding:' + fname.split('>::')[-1], Or(g for f, g in eng.exceeded if f == fname), kind='unwind'))
     qs.insert(0, Query('model-capacity', Or(g for _, g in eng.obligations), kind='obligation'))
